@@ -173,6 +173,11 @@ def generate(rng, tier):
         ("nested_open", b'sec {\ninclude("open_chain.conf")\n}\n}\n%E', [("open_chain.conf", b'x = 1\n}\nn {\ninclude("open_inner.conf")\n'),
                                                                          ("open_inner.conf", b"inner q {\n z = 1\n")]),
         ("single_close", b'sec {\ninclude("close.conf")\n%E', [("close.conf", b" x = 2\n}\n")]),
+        # newlines inside ${...} (the substitution text may span lines): each is a line (F39)
+        ("env_dq_newline", b's = "${NOSUCHVAR_Q:-foo\nbar}"\n%E', []),
+        ("env_word_newline", b's = ${NOSUCHVAR_Q:-foo\nbar\n\nbaz}\n%E', []),
+        ("env_name_newline", b's = "a${NO\nSUCH}b" sl = { ${Q\n}, "x" }\n%E', []),
+        ("env_in_section", b'm t {\n t = "${NOSUCHVAR_Q:-1\n2}"\n x = ${NOSUCHVAR_Q:-\n3}\n%E', []),
     ]
     for sname, text, files in shapes:
         for e in errs:
